@@ -57,3 +57,63 @@ def extra_labelmap(v: Verdict, tier: str):
                         lambda r, c: {"extra": "InstanceLabelMap"}, what_fn=lambda r, c: "InstanceLabelMap API history",
                         spec_name="Spec")
     v.cov["extra_labelmap_histories"] = n
+
+
+# --------------------------------------------------------------------------------------
+# lazy metrics of PanopticaResult (ResultLazy.tla), attached to C02
+# --------------------------------------------------------------------------------------
+ORDER = ["num_ref_instances", "num_pred_instances", "tp", "fp", "fn", "prec", "rec", "rq", "sq", "sq_std", "pq", "sq_dsc", "sq_dsc_std",
+         "pq_dsc", "sq_cldsc", "sq_cldsc_std", "pq_cldsc", "sq_assd", "sq_assd_std", "sq_rvd", "sq_rvd_std",
+         "global_bin_dsc", "global_bin_iou", "global_bin_assd", "global_bin_cldsc", "global_bin_rvd"]
+
+
+def lazy_history(rng, n):
+    import numpy as np
+    from panoptica import PanopticaResult
+    from panoptica.metrics import MetricCouldNotBeComputedException
+    from .rec_pipeline import METRIC, make_handler, DEFAULT_H
+    from .checks_pipeline import rand_handler
+    lms = ["IOU", "DSC", "clDSC", "ASSD", "RVD"]
+    lists = [m for m in lms if rng.random() < 0.6]
+    globs = [m for m in ["DSC", "IOU", "RVD"] if rng.random() < 0.4]
+    nref, npred = rng.randint(0, 3), rng.randint(0, 3)
+    tp = rng.randint(0, min(nref, npred))
+    h = rand_handler(rng) if rng.random() < 0.7 else DEFAULT_H
+    from .checks_pipeline import rand_handler as _rh  # noqa: F401
+    scen = ("NO_INSTANCES" if nref + npred == 0 else "EMPTY_REF" if nref == 0 else "EMPTY_PRED" if npred == 0 else "NORMAL")
+    sqnone = [m for m in lists if tp == 0 and h["zt"][m][scen] == "NONE"]
+    arr = np.zeros((3, 3), dtype=np.uint8)
+    arr[0, 0] = 1
+    res = PanopticaResult(reference_arr=arr, prediction_arr=arr.copy(), num_pred_instances=npred, num_ref_instances=nref, tp=tp,
+                          list_metrics={METRIC[m]: [0.5] * tp for m in lists}, edge_case_handler=make_handler(h),
+                          global_metrics=[METRIC[g] for g in globs])
+    ev = []
+    for _ in range(n):
+        if rng.random() < 0.15:
+            res.calculate_all()
+            e = {"op": "calc_all", "m": "-", "out": "-"}
+        else:
+            m = rng.choice(ORDER)
+            try:
+                getattr(res, m)
+                out = "ok"
+            except MetricCouldNotBeComputedException:
+                out = "err"
+            except Exception:  # noqa: BLE001
+                out = "exc"
+            e = {"op": "get", "m": m, "out": out}
+        e["vis"] = sorted(res.to_dict().keys())
+        ev.append(e)
+    return {"cf": {"lists": lists, "globals": globs, "nopred": npred == 0, "noref": nref == 0, "tpzero": tp == 0, "sqnone": sqnone}, "ev": ev}
+
+
+def extra_lazy_result(v: Verdict, tier: str):
+    rng = random.Random(seed() * 7919 + 202)
+    run_models(v, [("MC_ResultLazy", f"MC_ResultLazy_{c}.cfg") for c in "abc"])
+    import warnings
+    with quiet(), warnings.catch_warnings():
+        warnings.simplefilter("ignore")
+        recs = [lazy_history(rng, rng.randint(3, 15)) for _ in range(200 if tier == "quick" else 4000)]
+    n = validate_traces(v, "Trace_ResultLazy", ["T_Outcome", "T_Visible"], recs, lambda r, c: {"extra": "PanopticaResult-lazy-metrics"},
+                        what_fn=lambda r, c: f"lazy metric history cf={r['cf']}")
+    v.cov["extra_lazy_result_histories"] = n
